@@ -102,7 +102,7 @@ static Params generic_base(const std::vector<std::string>& names, int seed) {
 
 struct Ctx {
   const System* sys; Params base; std::vector<LD> dflt; std::vector<std::vector<LD>> alpha; std::vector<Pt> pts;
-  std::vector<Assignment> as; int level_end[4]; std::vector<std::string> namesB;
+  std::vector<Assignment> as; int level_end[4]; size_t zero_pairs = 0; std::vector<std::string> namesB;
 };
 
 static std::string fmt_params(const Params& P) {
@@ -335,6 +335,17 @@ static void build_ctx(Ctx& C, const System& sys, int tier) {
   C.level_end[2] = C.as.size();
   if (maxdev >= 3) for (int i = 0; i < n; i++) for (int j = i + 1; j < n; j++) for (int k = j + 1; k < n; k++) for (LD v : C.alpha[i]) for (LD w : C.alpha[j]) for (LD x : C.alpha[k]) { Assignment a; a.nd = 3; a.d[0] = {i, v}; a.d[1] = {j, w}; a.d[2] = {k, x}; C.as.push_back(a); }
   C.level_end[3] = C.as.size();
+  // zero pairs (not part of the deviation-ball bound that is reported as completed)
+  if (maxdev < 2 && !g_red) {
+    std::function<std::string(const std::string&)> grp = sys.zero_pair_group;
+    if (!grp && n <= 50) grp = [](const std::string&) { return std::string("all"); };
+    if (grp) for (int i = 0; i < n; i++) for (int j = i + 1; j < n; j++) {
+      std::string gi = grp(names[i]), gj = grp(names[j]); if (gi.empty() || gi != gj) continue;
+      if (std::find(C.alpha[i].begin(), C.alpha[i].end(), 0.0L) == C.alpha[i].end() || std::find(C.alpha[j].begin(), C.alpha[j].end(), 0.0L) == C.alpha[j].end()) continue;
+      Assignment a; a.nd = 2; a.d[0] = {i, 0.0L}; a.d[1] = {j, 0.0L}; C.as.push_back(a);
+    }
+  }
+  C.zero_pairs = C.as.size() - C.level_end[3];
 }
 
 
@@ -378,7 +389,7 @@ static int run_system(const System& sys0, int tier, FILE* out, double t_end) {
   std::string al = "{"; bool first = true; long nalpha = 0;
   for (size_t i = 0; i < C.alpha.size(); i++) nalpha += C.alpha[i].size();
   (void)first; (void)al;
-  fprintf(out, "{\"k\":\"system\",\"system\":\"%s\",\"prop\":\"%s\",\"nparams\":%zu,\"alphabet\":%ld,\"points\":%zu,\"assignments\":%zu,\"level_end\":[%d,%d,%d,%d],\"base\":%s}\n", sys.name.c_str(), sys.prop.c_str(), C.base.names.size(), nalpha, C.pts.size(), C.as.size(), C.level_end[0], C.level_end[1], C.level_end[2], C.level_end[3], fmt_params(C.base).c_str());
+  fprintf(out, "{\"k\":\"system\",\"system\":\"%s\",\"prop\":\"%s\",\"nparams\":%zu,\"alphabet\":%ld,\"points\":%zu,\"assignments\":%zu,\"level_end\":[%d,%d,%d,%d],\"zero_pairs\":%zu,\"base\":%s}\n", sys.name.c_str(), sys.prop.c_str(), C.base.names.size(), nalpha, C.pts.size(), C.as.size(), C.level_end[0], C.level_end[1], C.level_end[2], C.level_end[3], C.zero_pairs, fmt_params(C.base).c_str());
   return rc;
 }
 
